@@ -15,7 +15,7 @@ EXPLANATION = (
     "(read_more): drain(0..offset) is followed by offset = 0 on the same path and the buffer grows only on the offset == 0 branch.  "
     "R4 (tick typestate, structural part): every construction of Item::TickStart is paired with a store in_tick = true and every "
     "Item::TickEnd with in_tick = false; all stores to `tick` take their value from checked_add; positions and inputs accumulate "
-    "through wrapping_add.  R4b: the implicit tick test is `previous cid >= cid` and INPUT_NEW overwrites the stored input.  R5: every reachable panic site is discharged or reviewed.  Not decided: equality of item sequences "
+    "through wrapping_add.  R4b: the implicit tick test is `previous cid >= cid`, a TICK_SKIP resets the remembered client id (doc/teehistorian.md pseudo-code), and INPUT_NEW overwrites the stored input.  R5: every reachable panic site is discharged or reviewed.  Not decided: equality of item sequences "
     "across splittings as such, and the tick numbers against doc/teehistorian.md (value level)."
 )
 ASSUMPTIONS = ["the read callback returns Some(n > 0) or None (end of stream)", "reviewed table lines confirmed by reading the code"]
@@ -255,6 +255,34 @@ def implicit_tick_and_inputs(prog, rep):
                    {"Gt": ">", "Le": "<=", "Lt": "<"}.get(rel, "?"),
                    "a lone player's consecutive ticks merge into one" if rel == "Gt" else "tick boundaries differ from doc/teehistorian.md"),
                b.loc(ln))
+    # (c) doc/teehistorian.md: `if message.kind == TICK_SKIP: tick += dt + 1; implicit_cid = None` -- an explicit tick
+    # advance forgets the previous player's client id, so the player records that follow belong to the tick it announced
+    skip_stores = []
+    none_after_skip = False
+    for bi in sorted(b.live):
+        for si, st in enumerate(b.blocks[bi]["st"]):
+            if st["k"] == "assign" and st["p"].get("pr"):
+                pe = ir.place(st["p"], (bi, si))
+                if ir.access_path(pe)[1] == ("tick",):
+                    v = ir.rvalue(st["r"], (bi, si))
+                    if "TickSkip" in show(strip_sites(v)):
+                        skip_stores.append(bi)
+    if not skip_stores:
+        raise AnchorLost("Reader::read: the TICK_SKIP store to self.tick was not found")
+    for sb in skip_stores:
+        reach = b.reachable_from(sb)
+        for bi in sorted(b.live):
+            for si, st in enumerate(b.blocks[bi]["st"]):
+                if st["k"] == "assign" and st["p"].get("pr") and (bi in reach):
+                    pe = ir.place(st["p"], (bi, si))
+                    if ir.access_path(pe)[1] == ("prev_player_cid",):
+                        v = ir.rvalue(st["r"], (bi, si))
+                        if v[0] == "agg" and v[3] == "None" and (b.dominates(sb, bi)):
+                            none_after_skip = True
+    rep.ob(rule, "TICK_SKIP resets the implicit client id", none_after_skip,
+           "the TICK_SKIP arm stores prev_player_cid = None" if none_after_skip else
+           "the TICK_SKIP arm leaves prev_player_cid set: a player record after an explicit tick advance whose cid is <= the last one "
+           "seen before it triggers a second, implicit advance (doc/teehistorian.md resets implicit_cid on TICK_SKIP)", b.loc())
     ins = []
     for bi, t in b.calls():
         if (t.get("callee") or "").endswith("::insert"):
